@@ -160,8 +160,52 @@ def ob_pair(w, P):
     return x.result()
 
 
+def ob_iter_suspended(w, P):
+    """client A is part-way through an iteration (iterator advanced, not exhausted) when client B completes a write:
+    every operation A starts afterwards sees B's write (real-time precedence) and A's own writes are not refused"""
+    x = Ctx(w, P, cull_limit=0, kinds=('int',), tags=False)
+    c = x.c
+    core = w.L.core
+    for rv in x.s.rowvars:
+        assume(rv['expire_null'].z)
+    assume(sx.zB(sx.LeI(2, x.T0.count())))  # the first result page holds two rows: the cursor stays open after the first
+    how = P.get('how', 'iter')
+    other = w.clone_handle(c)
+    kb, kcb, rcb = x.key('keyB')
+    vb = x.s.v_int('valB', -2 ** 30, 2 ** 30)
+    ka, kca, rca = x.key('keyA')
+    va = x.s.v_int('valA', -2 ** 30, 2 ** 30)
+    x.begin()
+    it = {'iter': lambda: iter(c), 'reversed': lambda: reversed(c), 'iterkeys': lambda: c.iterkeys()}[how]()
+    first = next(it)
+    w.tid, old = 2, w.tid
+    try:
+        rb = other.set(kb, vb)
+    finally:
+        w.tid = old
+    seen = c.get(kb, default=None)
+    try:
+        ra = c.set(ka, va)
+    except core.Timeout:
+        ra = 'timeout'
+    n_after = len(c)
+    rest = list(it)
+    x.end()
+    x.add('C05', "a lookup started after another client's write completed sees it (also while an iteration is suspended)", EqR(zv(seen), zv(vb)) if is_num_like(seen) else False)
+    x.add('C05,C14', 'a write by the iterating client is not refused while nobody holds the lock', ra is True)
+    TB, _ = rm.r_set(x.T0, kcb, rcb, Cell(INT, zv(vb)), x.times[0] if x.times else 0)
+    TBA, _ = rm.r_set(TB, kca, rca, Cell(INT, zv(va)), x.times[0] if x.times else 0)
+    cols = [c_ for c_ in CACHE_COLS if c_ not in ('store_time', 'access_time')]
+    x.add('C05', 'both writes are in the final state', rm.table_eq(TBA, x.T1, cols))
+    x.add('C05,C03', 'len after the writes counts them', sx.EqI(zv(n_after), TBA.count()))
+    return x.result()
+
+
 def jobs(tier):
     out = []
+    for how in ('iter', 'reversed', 'iterkeys'):
+        out.append(dict(id='iter_suspended.%s' % how, func='ob_iter_suspended', params=dict(N=2, how=how, page=2), tags=['C05', 'C03'], weight=6,
+                        functions=['core.Cache._iter', 'core.Cache.iterkeys', 'core.Cache.get', 'core.Cache.set']))
     Ns = [1] if tier == 'quick' else [1, 2]
     writers = ['set', 'add', 'incr', 'pop', 'delete', 'touch']
     pairs = []
